@@ -9,9 +9,9 @@ import (
 	"sort"
 	"strings"
 
+	"mltwist/internal/riscv"
 	"mltwist/pkg/expr"
 	"mltwist/pkg/model"
-	"mltwist/internal/riscv"
 	"mltwist/verifh/mon"
 	"mltwist/verifh/refir"
 	"mltwist/verifh/refrv"
@@ -425,8 +425,8 @@ func main() {
 		req = append(req, fmt.Sprintf("nontrivial_%d_%s", p.cfg.XLEN, p.def.Name))
 	}
 	mon.Main(mon.Spec{
-		Prop: "C01",
-		Rule: "case = (configuration, instruction word, address, register file): for every mnemonic of both variants, operand fields from {0,1,2,31,aliased,random}, immediates from {0,+-1,min,max,boundaries,random}, every shift amount, CSR numbers {0,1,0x7ff,0x800,0xfff,...}, register contents from {0,1,-1,MIN,MAX,0x7f../0x80.. patterns,32-bit boundaries,random}, addresses {0,4,0x1000,2^31-4,2^32-4,2^32,2^63-4,2^64-4,random}, extension subset varied; plus the immediate enumeration: every 12-bit I/S/load immediate, branch offset, shift amount and CSR zimm of every mnemonic-variant (all in the thorough tier, one sixteenth chosen by the seed in the quick tier; U/J formats: every value of the 12 most significant immediate bits); non-trivial = the reference changes a register, memory, a CSR or jumps; distinct by (word,address,source register values). Every mnemonic-variant must reach non-trivial cases (fence/ecall/ebreak: accepted cases).",
+		Prop:        "C01",
+		Rule:        "case = (configuration, instruction word, address, register file): for every mnemonic of both variants, operand fields from {0,1,2,31,aliased,random}, immediates from {0,+-1,min,max,boundaries,random}, every shift amount, CSR numbers {0,1,0x7ff,0x800,0xfff,...}, register contents from {0,1,-1,MIN,MAX,0x7f../0x80.. patterns,32-bit boundaries,random}, addresses {0,4,0x1000,2^31-4,2^32-4,2^32,2^63-4,2^64-4,random}, extension subset varied; plus the immediate enumeration: every 12-bit I/S/load immediate, branch offset, shift amount and CSR zimm of every mnemonic-variant (all in the thorough tier, one sixteenth chosen by the seed in the quick tier; U/J formats: every value of the 12 most significant immediate bits); non-trivial = the reference changes a register, memory, a CSR or jumps; distinct by (word,address,source register values). Every mnemonic-variant must reach non-trivial cases (fence/ecall/ebreak: accepted cases).",
 		Explanation: "oracle: the lifted effects are applied with the reference IR semantics (all operands evaluated in the pre-state, then applied in order) and the resulting x1..x31, instruction pointer, CSR and written memory bytes are compared with an independent RISC-V reference interpreter on the same pre-state; x0 must never appear; CSR number <-> register key must be a bijection over everything observed; Parse panics are violations",
 		Assumptions: []string{"refrv reference interpreter (written from the unprivileged spec)", "refir evaluator", "AMO/LR/SC only at naturally aligned addresses; accesses crossing 2^XLEN skipped"},
 		Cases: func(t string) int {
